@@ -70,9 +70,7 @@ import (
 // ttl-clock:removed-fresh, ttl-clock:non-date-removed, ttl-clock:non-ttl-collection-touched,
 // ttl-clock:pass-incomplete (exact, from the commit log of the wrapped store: a pass that removed something left
 // a document that was already expired when the pass began), ttl-clock:delete-events (≠ exactly one delete event
-// per removed document, or a delete event for a kept or unknown document), ttl-clock:interval-ignored (no
-// scheduler stall and no slow store call seen, yet the median removal latency of the three groups of "soon"
-// documents exceeds 3 intervals + 200 ms), ttl-clock:index-incoherent (index members ≠ documents [matching the partial
+// per removed document, or a delete event for a kept or unknown document), ttl-clock:index-incoherent (index members ≠ documents [matching the partial
 // filter]), ttl-clock:active-after-close, ttl-clock:close-hang, ttl-clock:panic, ttl-clock:setup-failed.
 // The delete events' own wallTime gives a second, tight "removed-fresh" check (wallTime < X − 5 ms) and the
 // latency tags (wallTime − X of the last "soon" removals, in intervals).
@@ -1287,18 +1285,18 @@ func ttlclockCase(p tcParams) (c run.Case) {
 			s.tag(fmt.Sprintf("latency:>10-intervals/%s/file=%v/iv=%d/lat=%dms", p.Mode, p.File, p.IvMs, lat))
 		}
 	}
-	// the ExpireInterval itself: the "soon" documents expire at three moments spread over 220 ms; when neither a
-	// scheduler stall nor a slow store call was seen, the median of the three removal latencies cannot exceed
-	// 3 intervals + 200 ms (measured on the unchanged code: never above 1 interval + 25 ms in 640 quiet cases
-	// on a loaded machine)
+	// the ExpireInterval itself, as a distribution tag: the "soon" documents expire at three moments spread over
+	// 220 ms; median of the three removal latencies (normally at most 1 interval + 25 ms)
 	if (p.Mode == "timed" || p.Mode == "canary" || p.Mode == "reopen" || p.Mode == "busy") && s.latGroups >= 3 && s.medGroupLat >= 0 {
 		quiet := s.stalls == 0 && s.store.slow == 0
 		late := s.medGroupLat > 3*int64(p.IvMs)+200
 		switch {
 		case late && quiet:
 			s.tag("median-latency:late/quiet")
-			s.viol("ttl-clock:interval-ignored", "on an undisturbed engine the expired documents waited far longer than the configured ExpireInterval for their removal",
-				fmt.Sprintf("%d groups of documents expiring at different moments; the median removal came %d ms after the expiry (ExpireInterval %d ms); no scheduler stall, no slow store call seen", s.latGroups, s.medGroupLat, p.IvMs))
+			// TAG ONLY: under a load average above 30 one case in about 3000 showed a median of 328 ms at an interval
+			// of 40 ms although the control goroutine saw no stall above 100 ms and no store call above 25 ms —
+			// a latency bound tighter than the must-be-gone rule cannot be made safe on a loaded machine
+			s.tag(fmt.Sprintf("median-latency:late/quiet/%s/file=%v/iv=%d/median=%dms", p.Mode, p.File, p.IvMs, s.medGroupLat))
 		case late:
 			s.tag("median-latency:late/stalls-seen")
 		case s.medGroupLat > int64(p.IvMs)+50:
